@@ -51,6 +51,75 @@ CLAIMED = {
         "entries@t2>=t1 equals the walk on the consistent state at t1. Harness: merges parked at the join.* hooks while the source "
         "is appended to / merged, symmetric cross-merges with a watchdog, under -race.",
    technique="Coq proof over lock skeleton regenerated from Go AST + forced-schedule exploration", design="6/C14"),
+ "C02": dict(
+   text="Theorems (Props/C02.v): for every reachable state of every well-formed history (appends with content-consistent CIDs, "
+        "unbounded joins incl. overlapping/repeated/self/foreign-id, identity changes, publications) the head map holds exactly the "
+        "entries of the log no entry of the log names in next, without duplicates, non-empty iff the log is; proved as part of a log "
+        "invariant (entries inside a hash-consistent universe, next-closed, exact heads, exact reverse index, clock bound) preserved "
+        "by Append and by the faithful model of Join (difference walk, reverse-index and FindHeads filters). Tied to log.go by "
+        "differential execution of random multi-replica histories (model state compared after every op) and a brute-force monitor.",
+   technique="Coq proof (invariant over operation histories) + differential correspondence vs Go", design="6/C02"),
+ "C03": dict(
+   text="Theorems (Props/C03.v): in every reachable state, for the hash-tiebreak ordering and for the default ordering on tie-free logs, "
+        "Values() returns each entry of the log exactly once, sorted by the configured ordering, every entry after all its predecessors "
+        "present in the log, and is a function of the entry set (two replicas with equal entry sets have equal linearisations). Proved "
+        "by a loop invariant of the priority traversal (sorted stack, popped >= stacked, reachability closure), fuel sufficiency, and "
+        "an extensionality argument transferring the hash ordering to LastWriteWins on tie-free logs. Tie via history correspondence.",
+   technique="Coq proof (traversal loop invariant, order laws) + differential correspondence vs Go", design="6/C03"),
+ "C05": dict(
+   text="Theorems (Props/C05.v): every operation of a well-formed history keeps every entry of every replica under the same hash with "
+        "identical content, never decreases the entry count, and leaves all other replicas untouched; over any continuation of a "
+        "history. The Values()-subsequence clause follows for strict total orderings from C03 (sorted enumerations of nested sets) "
+        "and is monitored; for the default ordering with (id,time) ties it fails (known finding K2). The aliasing clause (Go shares "
+        "entries by pointer) is checked by execution only: the harness snapshots every log before each operation.",
+   technique="Coq proof (monotonicity over histories) + differential correspondence and snapshot monitors vs Go", design="6/C05"),
+ "C06": dict(
+   text="Theorems (Props/C06.v), for arbitrary logs: a Join that returns an error leaves the log unchanged; every entry a successful "
+        "Join adds carries the log's id and passed access controller, signature check and key presence; an invalid candidate makes the "
+        "Join fail; under the log invariant the candidates are exactly the source's entries the destination lacks (success iff all "
+        "valid); a denied Append changes neither entries nor heads. 'Appended entries verify' is C07 (default codec) / C18 (link "
+        "codec) / harness (legacy). Tied by histories with refusing access controllers and monitors on the real Join/Append.",
+   technique="Coq proof (control flow of Join/Append model, difference specification) + differential correspondence vs Go", design="6/C06"),
+ "C08": dict(
+   text="Theorems (Props/C08.v): CBOR byte layer decode(encode t ++ rest) = (t, rest) for well-formed trees (prefix-free, injective); "
+        "entry layer: reading back a written entry yields every field (nil/empty link lists, binary payloads, additional data), "
+        "re-encoding gives the same bytes hence the same CID, manifests likewise, link-encrypting codec round-trips under "
+        "open(seal)=id; field names/omit-empty/order come from the atlas table regenerated from cbor.go by tools/gentables. Tied by "
+        "byte-for-byte comparison of stored blocks, read-back and re-encode monitors, pinned interop vectors and v0/v1 fixtures.",
+   technique="Coq proof (codec round trip over generated atlas table) + byte-level differential correspondence vs Go", design="6/C08"),
+ "C09": dict(
+   text="Theorems (Props/C09.v): for a stored log that is the next-closure of its heads with refs inside and heads = unreferenced entries "
+        "(facts C02/C04/C17 establish for reachable logs), every schedule of the fetcher returns a permutation of the log, and the four "
+        "loaders rebuild the same id, entry set, heads and (for a strict total order) values. Tied by reloading reachable states "
+        "through all loaders under forced completion orders, validating recorded event traces against the executable model.",
+   technique="Coq proof (fetcher transition system) + trace validation and differential correspondence vs Go", design="6/C09"),
+ "C10": dict(
+   text="Theorems (Props/C10.v): the min-clock invariant of the limited fetch holds in every reachable state of every schedule; top-n of "
+        "the log is contained in the results which are contained in the log; the (repaired) loaders return exactly the supplied entries plus "
+        "the most recent others, min(max(n,k),size) entries, independent of the schedule, on tie-free logs. On logs with (id,time) "
+        "ties the outcome depends on arrival order (known finding K4). Tied by trace validation and exact result comparison.",
+   technique="Coq proof (invariant over a non-deterministic transition system) + trace validation vs Go", design="6/C10"),
+ "C11": dict(
+   text="Theorems (Props/C11.v) over ALL executions of the fetcher transition system (any store, fault set, exclusion predicate, "
+        "concurrency): bounded length (termination, no deadlock), results duplicate free, each hash requested at most once and never an "
+        "excluded/undefined one, terminal unbounded runs return exactly the entries reachable through retrievable non-excluded blocks, "
+        "runs cut by a timeout a subset; the executable trace validator is sound w.r.t. the relation. Real time, the cond-var/"
+        "semaphore implementation and ctx honouring are exercised (forced schedules, fault subsets, watchdog), not proved.",
+   technique="Coq proof (well-founded measure and invariants over a transition relation) + trace validation / fault enumeration vs Go", design="6/C11"),
+ "C12": dict(
+   text="Theorems (Props/C12.v): the conversion layer (refmt tree -> entry: DecryptLinks, Entry/EntryV0/Identity/Clock.ToPlain, manifest) "
+        "never reaches a nil dereference for any tree and any key, and an entry it returns has a clock, a complete-or-absent identity "
+        "and re-encodes; which dereferences are guarded is a table regenerated from types.go by tools/genguards, so removing a nil "
+        "check makes the model panic again. Third-party byte decoders are trusted to return a tree or an error and are fuzzed "
+        "(structure-aware + raw), incl. bad blocks at every position of a stored log loaded in child processes.",
+   technique="Coq proof (totality over generated guard table) + structured fuzzing with outcome-class correspondence vs Go", design="6/C12"),
+ "C18": dict(
+   text="Theorems (Props/C18.v): with a link key the stored block has empty next/refs and no tag-42 item, every clear field except "
+        "enc_links/nonce/sig is independent of the links; same key recovers identical lists, no key gives empty lists, another key an "
+        "error (secretbox authenticity assumed); created link entries verify as created and as read back (nonce reference independent "
+        "of the key, as repaired). Byte-level secrecy of seal/signature is cryptography (assumed). Tied by byte scans of raw blocks "
+        "for every link in all encodings, reader matrix, Verify/Join monitors, nonce-reference and block-byte correspondence.",
+   technique="Coq proof modulo secretbox/signature oracles + byte-level differential correspondence vs Go", design="6/C18"),
 }
 NOT_YET = "machinery for this property is still being built in this round (see DESIGN.md section 10); not claimed yet"
 
